@@ -4,6 +4,7 @@ CONSTANTS
  MaxSig = 1
  MaxItems = 2
  WsVariants = {0, 1, 2}
+ KindIdx = {1,2,3,4,5,6,7,8,9,10,11}
  NParts = 1
  Part = 0
 INVARIANT Lemmas
